@@ -59,6 +59,7 @@ Bad(e) ==
     [] e.ev = "Pair"   -> { c \in {"PrecIndependent"}  : e.kind = "prec"  /\ e.diff_lg > e.bound_lg }
                           \cup { c \in {"ScaleIndependent"} : e.kind = "scale" /\ e.diff_lg > e.bound_lg }
                           \cup { c \in {"StorageIndependent"} : e.kind = "sparse" /\ e.diff_lg > e.bound_lg }
+                          \cup { c \in {"ReusedSolverAnswersCurrentSystem"} : e.kind = "reuse" /\ e.diff_lg > e.bound_lg }
     [] e.ev = "Opt"    -> { c \in {"CycleOptimal"} : e.res_lg > Floor /\ e.ratio_fx > FxOne + OptSlack }
     [] OTHER -> {"UnknownEvent"}
 
